@@ -71,4 +71,29 @@ def regenerate(repo, th, svh=None):
            "(* kind names accepted in ` (<kind><quantifier>)`, with the rule they make: 0 equal, 1 no-eol, 2 escaped, 3 glob, 4 regex *)\n"
            "Definition kind_names : list (list N * nat) := [" + '; '.join(ents) + "].\n")
     info['gen_Kinds.v'] = 'rewritten' if write_if_changed(os.path.join(th, 'gen_Kinds.v'), src) else 'unchanged'
+    # --- the environment variables every test case gets (build_env_vars in src/bin/utils/environment.rs, source scrape) ---
+    envrs = open(os.path.join(repo, 'src/bin/utils/environment.rs')).read()
+    if 'fn build_env_vars' not in envrs:
+        raise RuntimeError('cannot find build_env_vars')
+    fn = envrs[envrs.index('fn build_env_vars'):]
+    fn = fn[:fn.index('\nfn ')] if '\nfn ' in fn else fn
+    cut = fn.index('if self.cram_compat') if 'if self.cram_compat' in fn else len(fn)
+    always, cram = fn[:cut], fn[cut:]
+    def pairs(txt):
+        out = []
+        for m in re.finditer(r'\(\s*"([A-Z_]+)"\.to_string\(\)\s*,\s*(.*?)\)\s*[,)]', txt, re.S):
+            lit = re.match(r'^"([^"]*)"\.to_string\(\)?\s*$', m.group(2).strip())
+            out.append((m.group(1), lit.group(1) if lit else None))
+        return out
+    pa, pc = pairs(always), pairs(cram)
+    if len(pa) < 4:
+        raise RuntimeError('cannot scrape build_env_vars: %r' % pa)
+    def ent(pr):
+        return '(%s, %s)' % (lst(pr[0].encode()), 'Some ' + lst(pr[1].encode()) if pr[1] is not None else 'None')
+    src = (HEADER + "From Coq Require Import List NArith.\nImport ListNotations.\nLocal Open Scope N_scope.\n\n"
+           "(* (name, Some literal value | None = computed per document) in the order build_env_vars pushes them *)\n"
+           "Definition env_always : list (list N * option (list N)) := [" + '; '.join(ent(x) for x in pa) + "].\n"
+           "Definition env_cram_compat : list (list N * option (list N)) := [" + '; '.join(ent(x) for x in pc) + "].\n")
+    info['gen_Env.v'] = 'rewritten' if write_if_changed(os.path.join(th, 'gen_Env.v'), src) else 'unchanged'
+    info['env_names'] = [x[0] for x in pa] + ['cram:' + x[0] for x in pc]
     return info
